@@ -3,3 +3,5 @@
 package main
 
 const raceEnabled = false
+
+func raceErrors() int { return 0 }
